@@ -4,7 +4,7 @@ import collections, json, os, re, sys
 L = open(sys.argv[1]).read().splitlines()
 res = collections.OrderedDict()
 for l in L:
-    m = re.match(r'^(C\d\d[ab]): (.*)$', l)
+    m = re.match(r'^(C\d\d[a-z]): (.*)$', l)
     if not m:
         continue
     i, t = m.groups()
